@@ -250,5 +250,5 @@ func TestVerif_C09(t *testing.T) {
 	prop := c09Prop(t, k)
 	k.Regress(t, func(sub string, raw json.RawMessage) error { return verifkit.Decode(raw, prop) })
 	verifkit.Enumerate(k, t, "single-message-hoplimit-x-type", true, c09Singles, prop)
-	verifkit.Rapid(k, t, "mixed-sequences", k.N(1500, 100000), c09Gen, prop)
+	verifkit.Rapid(k, t, "mixed-sequences", k.N(1500, 400000), c09Gen, prop)
 }
